@@ -93,6 +93,8 @@ def run_concrete(case: Case, values):
     old = cx.CUR
     cx.CUR = c
     exc = None
+    old_dtype = torch.get_default_dtype()
+    torch.set_default_dtype(torch.float64)  # replays run the real code in float64
     try:
         with facades.patched():
             try:
@@ -101,6 +103,7 @@ def run_concrete(case: Case, values):
                 exc = e
     finally:
         cx.CUR = old
+        torch.set_default_dtype(old_dtype)
     return c, exc
 
 
